@@ -429,3 +429,51 @@ fn c01_extreme_configurations_do_not_panic() {
     }
     println!("CASES c01_extreme_configurations {cases}");
 }
+
+/// "every valid configuration" includes the type checker's: the default list of lifting passes with any ONE pass left out,
+/// an empty list, and an empty rule set — on the storage idioms and on programs that use one value as key, operand and
+/// stored word at once; a layout or an error, never a panic
+#[test]
+fn c01_custom_pass_and_rule_sets_do_not_panic() {
+    use std::io::Write;
+    use storage_layout_extractor::{self as sle, extractor::{chain::{version::EthereumVersion, Chain}, contract::Contract}, tc, vm, watchdog::LazyWatchdog,
+        tc::lift::{Lift, LiftingPasses, dynamic_array_access::DynamicArrayIndex, mapping_index::MappingIndex, mapping_offset::MappingOffset, mul_shifted::MulShiftedValue, packed_encoding::PackedEncoding,
+                   proxy_slots::ProxySlots, recognise_hashed_slots::StorageSlotHashes, storage_slots::StorageSlots, sub_word::SubWordValue}};
+    std::panic::set_hook(Box::new(|_| {}));
+    let passes = |skip: Option<usize>| -> LiftingPasses {
+        let all: Vec<Box<dyn Lift>> = vec![StorageSlotHashes::new(), ProxySlots::new(), MappingIndex::new(), SubWordValue::new(), MulShiftedValue::new(), PackedEncoding::new(), DynamicArrayIndex::new(), StorageSlots::new(), MappingOffset::new()];
+        LiftingPasses::new(all.into_iter().enumerate().filter(|(i, _)| Some(*i) != skip).map(|(_, p)| p).collect::<Vec<_>>())
+    };
+    let mut programs: Vec<Vec<u8>> = vec![
+        vec![0x36, 0x80, 0x80, 0x01, 0x90, 0x80, 0x55, 0x00],                                  // sstore(cds, cds) with cds also an ADD operand
+        vec![0x36, 0x80, 0x55, 0x00],                                                          // sstore(cds, cds)
+        vec![0x5f, 0x54, 0x80, 0x55, 0x00],                                                    // sstore(sload(0), sload(0))
+        vec![0x60, 0xff, 0x60, 0x00, 0x35, 0x16, 0x60, 0x08, 0x1b, 0x61, 0xff, 0x00, 0x19, 0x60, 0x01, 0x54, 0x16, 0x17, 0x60, 0x01, 0x55, 0x00],
+        vec![0x33, 0x5f, 0x52, 0x60, 0x01, 0x60, 0x20, 0x52, 0x60, 0x40, 0x5f, 0x20, 0x80, 0x54, 0x60, 0x01, 0x01, 0x90, 0x55, 0x00], // m[caller] += 1
+        vec![0x5f, 0x5f, 0x52, 0x60, 0x20, 0x5f, 0x20, 0x5f, 0x35, 0x01, 0x80, 0x54, 0x90, 0x55, 0x00],                                 // a[cd(0)] = a[cd(0)]
+    ];
+    let mut rng = Rng::seeded(4711);
+    let slots = [ethnum::U256::ZERO, ethnum::U256::ONE, ethnum::U256::new(1 << 64)];
+    for _ in 0..6 { let mut c = vec![]; for _ in 0..1 + rng.below(3) { c.extend(idiom(&mut rng, &slots)); } c.push(0x00); programs.push(c); }
+    let mut cases = 0;
+    for skip in (0..9).map(Some).chain([None, Some(usize::MAX)]) {
+        for empty_rules in [false, true] {
+            if empty_rules && skip != None { continue; }
+            for code in &programs {
+                let lp = if skip == Some(usize::MAX) { LiftingPasses::new(Vec::<Box<dyn Lift>>::new()) } else { passes(skip) };
+                let cfg = tc::Config::default().with_lifting_passes(lp);
+                let cfg = if empty_rules { cfg.with_inference_rules(tc::rule::InferenceRules::new()) } else { cfg };
+                println!("RUNNING c01_custom_passes without pass {skip:?} empty_rules={empty_rules} {code:02x?}");
+                std::io::stdout().flush().ok();
+                let c2 = code.clone();
+                let r = std::panic::catch_unwind(std::panic::AssertUnwindSafe(move || {
+                    let contract = Contract::new(c2, Chain::Ethereum { version: EthereumVersion::Shanghai });
+                    let _ = sle::new(contract, vm::Config::default().with_permissive_errors(true), cfg, LazyWatchdog.in_rc()).analyze();
+                }));
+                if r.is_err() { witness("C01", "analyze.panic.custom_pass_or_rule_set", format!("default lifting passes without #{skip:?} (usize::MAX = none at all), empty rule set: {empty_rules}; {code:02x?}"), "PANIC".into(), "layout or error".into()); }
+                cases += 1;
+            }
+        }
+    }
+    println!("CASES c01_custom_passes {cases}");
+}
